@@ -29,7 +29,7 @@ use std::thread;
 
 use cfg_if::cfg_if;
 use crossbeam_channel as cbc;
-use libfs::copy_node;
+use libfs::{copy_node, is_same_file};
 use log::{error, info};
 use blocking_threadpool::{Builder, ThreadPool};
 
@@ -252,6 +252,9 @@ fn dispatch_worker(file_q: cbc::Receiver<Operation>, stats: &Arc<dyn StatusUpdat
             Operation::Special(from, to) => {
                 info!("Dispatch[{:?}]: Special file {:?} -> {:?}", thread::current().id(), from, to);
                 if to.exists() {
+                    if is_same_file(&from, &to)? {
+                        return Err(XcpError::InvalidDestination("Source and destination are the same file.").into());
+                    }
                     if config.no_clobber {
                         return Err(XcpError::DestinationExists("Destination file exists and --no-clobber is set.", to).into());
                     }
